@@ -167,6 +167,9 @@ func c08Next(versioned bool) func(g *prog.Gen, idx int, hist []*prog.Step) *prog
 				if len(open) > 0 {
 					k = open[g.R.Intn(len(open))].key
 				}
+			} else if g.R.Chance(35) {
+				// created with a FULL_OBJECT checksum: the completion copies the parts through ONE running hash
+				p.Ck = []string{"crc32", "crc32c", "crc64nvme"}[g.R.Intn(3)]
 			}
 			return &prog.Op{Kind: "createUpload", Caller: caller, B: b, K: k, Put: p, Valid: true}
 		case r < 45:
